@@ -213,6 +213,23 @@ func dependsOnCallResult(v ssa.Value, pred func(ssa.Instruction) bool) bool {
 			return false
 		}
 		seen[v] = true
+		if al, ok := v.(*ssa.Alloc); ok {
+			// values stored into a local array/variable (e.g. variadic arguments)
+			for _, r := range referrers(al) {
+				switch x := r.(type) {
+				case *ssa.Store:
+					if x.Addr == ssa.Value(al) && walk(x.Val) {
+						return true
+					}
+				case *ssa.IndexAddr:
+					for _, r2 := range referrers(x) {
+						if st, ok := r2.(*ssa.Store); ok && st.Addr == ssa.Value(x) && walk(st.Val) {
+							return true
+						}
+					}
+				}
+			}
+		}
 		if ins, ok := v.(ssa.Instruction); ok {
 			if pred(ins) {
 				return true
